@@ -17,8 +17,8 @@ ID = "C13"
 CASES = {"quick": 480, "thorough": 6000}
 FLOOR = {"quick": 420, "thorough": 5500}
 FLOOR_COUNTERS = {
-    "quick": {"relations_judged": 6000, "x_wider_cases": 50, "x_narrower_cases": 50, "lre_calls": 900, "grd_calls": 800, "overlapping_index_cases": 80, "planted_map_cases": 60, "reference_implementations_judged": 250, "large_offset_shift_relations": 100, "integer_typed_inputs": 150, "target_rotations_with_default_scoring": 150, "index_arrays_reused_on_other_data": 30, "parallel_lre_calls": 20},
-    "thorough": {"relations_judged": 80000, "x_wider_cases": 600, "x_narrower_cases": 600, "lre_calls": 12000, "grd_calls": 10000, "overlapping_index_cases": 1000, "planted_map_cases": 800, "reference_implementations_judged": 3500, "large_offset_shift_relations": 1200, "integer_typed_inputs": 2000, "target_rotations_with_default_scoring": 2000, "index_arrays_reused_on_other_data": 400, "parallel_lre_calls": 300},
+    "quick": {"relations_judged": 6000, "x_wider_cases": 50, "x_narrower_cases": 50, "lre_calls": 900, "grd_calls": 800, "overlapping_index_cases": 80, "planted_map_cases": 60, "reference_implementations_judged": 250, "large_offset_shift_relations": 100, "integer_typed_inputs": 150, "target_rotations_with_default_scoring": 150, "index_arrays_reused_on_other_data": 30, "parallel_lre_calls": 20, "weak_direction_planted_maps": 15},
+    "thorough": {"relations_judged": 80000, "x_wider_cases": 600, "x_narrower_cases": 600, "lre_calls": 12000, "grd_calls": 10000, "overlapping_index_cases": 1000, "planted_map_cases": 800, "reference_implementations_judged": 3500, "large_offset_shift_relations": 1200, "integer_typed_inputs": 2000, "target_rotations_with_default_scoring": 2000, "index_arrays_reused_on_other_data": 400, "parallel_lre_calls": 300, "weak_direction_planted_maps": 200},
 }
 RULE = (
     "case = X, Y with equal sample count (12-60) and feature counts 2-8 on each side (X wider / equal / narrower by "
@@ -45,7 +45,7 @@ def gen(rng, tier, index):
     X = gens.well_conditioned(rng, n, f, cond=float(10.0 ** rng.uniform(0, 3))) * np.sqrt(n) if n > f else rng.normal(size=(n, f))
     X = X + rng.normal(size=f) * float(gens.pick(rng, (0.0, 1.0, 5.0)))
     Y = np.tanh(X @ rng.normal(size=(f, p))) + 0.2 * rng.normal(size=(n, p)) + rng.normal(size=p)
-    idx = gens.pick(rng, ("default", "default", "disjoint", "overlap", "identical", "train_only", "test_only", "from_the_end"))
+    idx = gens.pick(rng, ("default", "default", "disjoint", "overlap", "identical", "train_only", "test_only", "from_the_end", "shuffled", "bootstrap"))
     perm = rng.permutation(n)
     tr = te = None
     if idx == "disjoint":
@@ -58,6 +58,13 @@ def gen(rng, tier, index):
     elif idx == "from_the_end":  # both index sets counted from the end of the data, as plain integer ndarrays
         c = int(rng.integers(n // 3, 2 * n // 3))
         tr, te = np.sort(perm[:c]) - n, np.sort(perm[c:]) - n
+    elif idx == "shuffled":  # explicit sets in arbitrary (not ascending) order: results come back in the order asked for
+        c = int(rng.integers(n // 3, 2 * n // 3))
+        tr, te = perm[:c].copy(), perm[c:].copy()
+    elif idx == "bootstrap":  # a training set drawn with replacement, a test set that names a sample twice
+        tr = rng.integers(0, n, size=max(8, 2 * n // 3))
+        te = rng.integers(0, n, size=max(4, n // 3))
+        te[-1] = te[0]
     elif idx == "train_only":
         tr = np.sort(perm[: n // 2])
     elif idx == "test_only":
@@ -74,6 +81,7 @@ def gen(rng, tier, index):
         "extra_rows": int(rng.integers(1, 12)),
         "rot_scoring": gens.pick(rng, ("neg_mean_squared_error", None)),
         "n_jobs": 2 if index % 16 == 5 else None,  # the local measure's public parallel entry
+        "nearly_collinear": {"delta": float(10.0 ** rng.uniform(-6, -3)), "noise": rng.normal(size=n), "A": rng.normal(size=(f, 3)), "a": rng.normal(size=3)} if index % 5 == 2 else None,
         "idx": idx,
         "train_idx": tr,
         "test_idx": te,
@@ -213,6 +221,21 @@ def run(case, j):
         z = M.global_reconstruction_distortion(X, X @ case["Q"], **dict(ikw))
         j.ok("GRD(X, X Q) vanishes for orthogonal Q", z <= 1e-8, float(z))
         j.note("relations_judged")
+    # ---- contained information in a weak direction: two nearly (not exactly) collinear source columns, and a target that
+    #      lives on their difference; X still has full column rank, so the target is a linear function of X
+    nc = case.get("nearly_collinear")
+    fc = min(f, 3)
+    if nc is not None and fc >= 2 and n >= 4 * fc + 8:
+        Xc = np.array(X[:, :fc], dtype=float, copy=True)
+        Xc[:, -1] = Xc[:, -2] + nc["delta"] * np.std(Xc[:, -2]) * nc["noise"]
+        Ac = np.array(nc["A"][:fc], copy=True)
+        Ac[-2] = nc["a"] / nc["delta"]
+        Ac[-1] = -Ac[-2] + nc["A"][fc - 1]
+        if np.linalg.cond(Xc[:, :-1] - Xc[:, :-1].mean(0)) <= 1e2:
+            z = j.lib("GRE(Xc, Xc A)", M.global_reconstruction_error, Xc, Xc @ Ac)
+            j.ok("GRE(X, X A) vanishes also when A lives on a weak (nearly collinear) direction of X", z <= 1e-6, {"value": float(z), "delta": nc["delta"]})
+            j.note("weak_direction_planted_maps")
+            j.note("relations_judged")
     # ---- on the training set GRE <= 1
     tr = case["train_idx"] if case["train_idx"] is not None else np.arange(n)
     gtr = M.global_reconstruction_error(X, Y, train_idx=tr, test_idx=tr, estimator=_est(case["est"], case["alpha"]))
